@@ -413,6 +413,9 @@ def core():
                           arg("out_file", "str", optional=True)],
                 name="cfg"),
         variant("Flags", [arg("a", "bool", short=True), arg("b", "bool", short=True, long="bee"), arg("quiet", "bool", long=True)]),
+        # required arguments of different kinds interleaved in declaration order (the first MISSING one is reported)
+        variant("Copy", [arg("file", "str"), arg("level", "u8", short=True, long=True)]),
+        variant("Mix", [arg("a", "u8"), arg("b", "u8", long=True), arg("c", "str"), arg("d", "i8", short=True), arg("e", "char")]),
     ], title="Arguments"))
     # all value types
     E.append(command("types", [
